@@ -5,6 +5,7 @@ package props
 // input the fault offset is enumerated (exhaustively for small inputs).
 
 import (
+	"bufio"
 	"bytes"
 	"fmt"
 	"io"
@@ -65,6 +66,36 @@ func genC07(t *rapid.T, thorough bool) C07Case {
 	c := C07Case{Kind: "read", Format: rapid.SampledFrom(codecNames).Draw(t, "format"), Seed: rapid.IntRange(0, 1<<20).Draw(t, "seed")}
 	nrecs := rapid.SampledFrom([]int{2, 2, 3, 4, 6}).Draw(t, "nrecs")
 	c.Text = StreamText{Lines: genWellFormedLines(t, c.Format, nrecs)}
+	switch rapid.IntRange(0, 7).Draw(t, "malformed") {
+	case 0:
+		// any input: a near-valid byte string
+		c.Text = StreamText{Raw: genNearValid(t, c.Format)}
+		return c
+	case 1:
+		// well-formed lines with line-level damage: blank lines inserted, a line dropped or doubled
+		lines := c.Text.Lines
+		for e := rapid.IntRange(1, 3).Draw(t, "edits"); e > 0 && len(lines) > 0; e-- {
+			i := rapid.IntRange(0, len(lines)-1).Draw(t, "at")
+			switch rapid.IntRange(0, 3).Draw(t, "edit") {
+			case 0, 1:
+				lines = append(lines[:i+1:i+1], append([]gen.B{nil}, lines[i+1:]...)...)
+			case 2:
+				lines = append(lines[:i:i], lines[i+1:]...)
+			default:
+				lines = append(lines[:i+1:i+1], lines[i:]...)
+			}
+		}
+		var raw bytes.Buffer
+		for _, l := range lines {
+			raw.Write(l)
+			raw.WriteByte('\n')
+		}
+		c.Text = StreamText{Raw: raw.Bytes()}
+		if len(c.Text.Raw) == 0 {
+			c.Text.Raw = gen.B("\n")
+		}
+		return c
+	}
 	if rapid.IntRange(0, 7).Draw(t, "big") == 0 {
 		blockLen := 0
 		for _, l := range c.Text.Lines {
@@ -92,20 +123,32 @@ func checkC07(c C07Case, o *Obs) error {
 		return checkWriteFaults(c, o)
 	}
 	codec := codecs[c.Format]
-	if codec == nil || !c.Text.wellFormed() {
+	if codec == nil {
 		return nil
 	}
 	text := c.Text.Render(false)
-	D, over, p := collect(func(cb func(Item) bool) { codec.Reader(bytes.NewReader(text), cb) }, len(text)+16)
+	if len(text) > 3000 && !c.Text.wellFormed() {
+		return nil
+	}
+	all, over, p := collect(func(cb func(Item) bool) { codec.Reader(bytes.NewReader(text), cb) }, len(text)+16)
 	if p != nil || over {
-		return fmt.Errorf("%s: fault-free decode of a well-formed input panicked (%v) or did not end", c.Format, p)
+		return fmt.Errorf("%s: fault-free decode panicked (%v) or did not end (input %s)", c.Format, p, gen.Abbrev(text))
 	}
-	for i, it := range D {
+	// D: the records of the fault-free decode. For any input - malformed ones too, whose
+	// fault-free decode contains error items - a failing stream delivers only leading records of
+	// D and reports an error.
+	var D []Item
+	for i, it := range all {
 		if it.Err != nil {
-			return fmt.Errorf("%s: fault-free decode of a well-formed input yields an error at item %d: %v (input %s)", c.Format, i, it.Err, gen.Abbrev(text))
+			if c.Text.wellFormed() {
+				return fmt.Errorf("%s: fault-free decode of a well-formed input yields an error at item %d: %v (input %s)", c.Format, i, it.Err, gen.Abbrev(text))
+			}
+			continue
 		}
+		D = append(D, it)
 	}
-	o.NT = len(D) >= 2
+	o.ClassIf(!c.Text.wellFormed(), "malformed input")
+	o.NT = len(D) >= 2 || (!c.Text.wellFormed() && len(all) >= 2)
 	// offsets: all of them for small inputs; around line boundaries and buffer refills plus a
 	// deterministic sample for large ones
 	var offsets []int
@@ -253,6 +296,28 @@ func checkWriteFaults(c C07Case, o *Obs) error {
 			}
 		}
 	}
+	// The destination is a bufio.Writer (the usual way to write many records) over a failing
+	// writer: a call during which the underlying writer failed reports an error, and so does
+	// every later call (the bufio.Writer keeps failing).
+	for _, bufSize := range []int{16, 64} {
+		for k := 0; k <= 3*total; k += max(1, total/7) {
+			lw := &fault.LimitedWriter{Limit: k}
+			bw := bufio.NewWriterSize(lw, bufSize)
+			for rep := 0; rep < 4; rep++ {
+				runs++
+				var werr error
+				if p := catch(func() { werr = write(bw) }); p != nil {
+					return fmt.Errorf("%s: Write to a bufio.Writer panicked when the underlying writer fails after %d bytes: %v", c.Format, k, p)
+				}
+				if lw.Failed && werr == nil {
+					return fmt.Errorf("%s: Write number %d to a bufio.Writer (buffer %d bytes) returned nil although the underlying writer had failed after %d bytes, during or before this call; one record is %d bytes: %s", c.Format, rep+1, bufSize, k, total, gen.Abbrev(healthy.Bytes()))
+				}
+				if !lw.Failed && werr != nil {
+					return fmt.Errorf("%s: Write number %d to a bufio.Writer returned %v although the underlying writer has not failed (limit %d, record %d bytes)", c.Format, rep+1, werr, k, total)
+				}
+			}
+		}
+	}
 	o.Count("writer_fault_runs", runs)
 	return nil
 }
@@ -278,6 +343,40 @@ func exhaustiveC07(thorough bool, emit func(C07Case) bool) {
 			}
 			if !emit(C07Case{Kind: "read", Format: f, Text: StreamText{Lines: ls, Reps: 4200/len(StreamText{Lines: ls}.Render(false)) + 1}, Seed: 7}) {
 				return
+			}
+		}
+	}
+	// the same inputs with one or two blank lines inserted at a line boundary (malformed for some
+	// formats, skipped by others), and with one line dropped
+	for _, f := range codecNames {
+		lines := inputs[f][0]
+		for i := 0; i <= len(lines); i++ {
+			for _, edit := range []string{"blank", "blank2", "drop"} {
+				var raw bytes.Buffer
+				for j, l := range lines {
+					if j == i && edit != "drop" {
+						raw.WriteString("\n")
+						if edit == "blank2" {
+							raw.WriteString("\n")
+						}
+					}
+					if j == i && edit == "drop" {
+						continue
+					}
+					raw.WriteString(l + "\n")
+				}
+				if i == len(lines) {
+					if edit == "drop" {
+						continue
+					}
+					raw.WriteString("\n")
+					if edit == "blank2" {
+						raw.WriteString("\n")
+					}
+				}
+				if !emit(C07Case{Kind: "read", Format: f, Text: StreamText{Raw: raw.Bytes()}}) {
+					return
+				}
 			}
 		}
 	}
